@@ -4,7 +4,7 @@ From Coq Require Import String.
 From Coq Require Import List Bool Arith NArith Lia.
 Import ListNotations.
 Require Import PPCore Memo Md5 Str Mask IpModel G_ip_consts.
-Open Scope N_scope.
+Local Open Scope N_scope.
 
 Definition ERR : str := lit "ERR".
 Definition BAD : str := lit "BADCASE".
